@@ -10,8 +10,13 @@
    client's writer and is NOT fed back into the shared state).  The per-zone ENTRY limits of both
    caches (FIFO eviction) are modelled; the byte limits and the global limits are not (the driver checks
    that no generated entry exceeds the per-entry byte budget the limits are derived from, so the entry
-   limit always binds first); the NSEC3 half of the index is not modelled. *)
-From Sdns Require Import Common.Base Gen.C02 C02.Model C02.ModelCut.
+   limit always binds first).  NSEC3 half of the index (wave 5): a history uses ONE denial family and, for NSEC3,
+   one parameter tuple (hash, iterations, salt) — so the two-ring limit and ring ordering never act; modelled are
+   admission (identity = owner hash), replacement, the conflict quarantine (a second RDATA at a live owner hash
+   drops the whole ring and refuses the tuple until both observations have expired), expiry/pruning, the
+   evaluation of the live ring through EvaluateAggressiveNSEC3 (hash values as data: tab) and the Opt-Out
+   refusal of subtree cuts. *)
+From Sdns Require Import Common.Base Gen.C02 C02.Model C02.ModelCut C02.ModelNsec3.
 Open Scope Z_scope.
 
 (* proof index of the zone: SOA expiry; the NSEC entries (one per owner) with their expiries, oldest
@@ -20,9 +25,11 @@ Open Scope Z_scope.
 Record shared := mk_shared {
   sh_soa : option Z;
   sh_recs : list (cnsec * Z);
+  sh_recs3 : list (nsec3 * Z);        (* NSEC3 entries of the one parameter ring, oldest admission first *)
+  sh_tomb : option Z;                 (* conflict tombstone of that ring: refused until this instant *)
   sh_cuts : list (rname * Z)
 }.
-Definition shared_empty : shared := mk_shared None [] [].
+Definition shared_empty : shared := mk_shared None [] [] None [].
 
 (* limits: maxEntriesPerZone of the proof index (the SOA entry counts) and of the cut cache *)
 Record limits := mk_limits { lim_index : nat; lim_cuts : nat }.
@@ -63,18 +70,65 @@ Definition record_index (lim : limits) (st : shared) (now : Z) (zone q : rname) 
   | [] => st
   | _ =>
     if (lim_index lim <? S (length rs))%nat then st else
-    mk_shared (Some e) (keep_newest (lim_index lim - 1) (put_recs (sh_recs st) (sort_canon rs) e)) (sh_cuts st)
+    mk_shared (Some e) (keep_newest (lim_index lim - 1 - length (sh_recs3 st)) (put_recs (sh_recs st) (sort_canon rs) e))
+              (sh_recs3 st) (sh_tomb st) (sh_cuts st)
+  end.
+
+(* ---- the NSEC3 ring *)
+Definition optN_eq (a b : option N) : bool :=
+  match a, b with Some x, Some y => (x =? y)%N | None, None => true | _, _ => false end.
+(* denialProofID: same owner (= owner hash label) in the same ring *)
+Definition same_id3 (a b : nsec3) : bool := optN_eq (r_ohash a) (r_ohash b).
+(* denialProofNSEC3EntriesEquivalent: flags, next hash and type set *)
+Definition equiv3 (a b : nsec3) : bool :=
+  (r_flags a =? r_flags b)%N && optN_eq (r_nhash a) (r_nhash b) && bitmaps_equal (r_types a) (r_types b).
+Definition ohash_lt (a b : nsec3) : bool :=
+  match r_ohash a, r_ohash b with Some x, Some y => (x <? y)%N | _, _ => false end.
+Fixpoint insert3 (r : nsec3) (l : list nsec3) : list nsec3 :=
+  match l with [] => [r] | h :: t => if ohash_lt r h then r :: l else h :: insert3 r t end.
+Definition sort3 (l : list nsec3) : list nsec3 := fold_right insert3 [] l.
+Definition put_rec3 (l : list (nsec3 * Z)) (r : nsec3) (e : Z) : list (nsec3 * Z) :=
+  filter (fun x => negb (same_id3 (fst x) r)) l ++ [(r, e)].
+Definition put_recs3 (l : list (nsec3 * Z)) (rs : list nsec3) (e : Z) : list (nsec3 * Z) :=
+  fold_left (fun acc r => put_rec3 acc r e) rs l.
+Definition tomb_active (now : Z) (t : option Z) : bool := match t with Some u => now <? u | None => false end.
+(* the first entry of the bundle (owner-hash order) that meets a live entry with the same identity and
+   different RDATA: its expiry *)
+Fixpoint first_conflict (now : Z) (l : list (nsec3 * Z)) (rs : list nsec3) : option Z :=
+  match rs with
+  | [] => None
+  | r :: t =>
+      match find (fun x => same_id3 (fst x) r) l with
+      | Some x => if (now <? snd x) && negb (equiv3 (fst x) r) then Some (snd x) else first_conflict now l t
+      | None => first_conflict now l t
+      end
+  end.
+(* Store.RecordDenialProof, NSEC3 kind *)
+Definition record_index3 (lim : limits) (st : shared) (now : Z) (zone q : rname) (rs : list nsec3) (e : Z) : shared :=
+  if (e <=? now) || negb (prefix_b zone q) then st else
+  match rs with
+  | [] => st
+  | _ =>
+    if (lim_index lim <? S (length rs))%nat then st else
+    if tomb_active now (sh_tomb st) then st else
+    match first_conflict now (sh_recs3 st) (sort3 rs) with
+    | Some pe => mk_shared (sh_soa st) (sh_recs st) [] (Some (Z.max e pe)) (sh_cuts st)
+    | None =>
+        mk_shared (Some e) (sh_recs st)
+          (keep_newest (lim_index lim - 1 - length (sh_recs st)) (put_recs3 (sh_recs3 st) (sort3 rs) e))
+          (sh_tomb st) (sh_cuts st)
+    end
   end.
 
 (* Store.RecordNXDomainCut (NXDOMAIN only; called whatever RecordDenialProof returned): the denied name
    strictly below the zone, a proof RRset, a positive lifetime; an older cut of the same name is
    replaced, the new one joins the zone's FIFO at the back, the oldest go beyond the limit *)
-Definition record_cut (lim : limits) (st : shared) (now : Z) (zone q : rname) (rs : list cnsec) (e : Z) : shared :=
-  if (e <=? now) || negb (prefix_b zone q) || rname_eqb q zone then st else
-  match rs with
-  | [] => st
+Definition record_cut (lim : limits) (st : shared) (now : Z) (zone q : rname) (nproofs : nat) (optout : bool) (e : Z) : shared :=
+  if (e <=? now) || negb (prefix_b zone q) || rname_eqb q zone || optout then st else   (* HasNSEC3OptOut: no cut *)
+  match nproofs with
+  | O => st
   | _ =>
-    mk_shared (sh_soa st) (sh_recs st)
+    mk_shared (sh_soa st) (sh_recs st) (sh_recs3 st) (sh_tomb st)
       (keep_newest (lim_cuts lim) (filter (fun x => negb (rname_eqb (fst x) q)) (sh_cuts st) ++ [(q, e)]))
   end.
 
@@ -82,7 +136,9 @@ Definition record_cut (lim : limits) (st : shared) (now : Z) (zone q : rname) (r
 Inductive downstream :=
 | DsPositive                                             (* an ordinary answer: nothing for the shared state *)
 | DsNegative (rcode : N) (rs : list nsec) (ttl : Z)      (* NXDOMAIN / NODATA with SOA + these NSEC RRsets *)
-             (marked aggressive res_cd : bool).          (* provenance attached? aggressive-eligible? CD in the response? *)
+             (marked aggressive res_cd : bool)           (* provenance attached? aggressive-eligible? CD in the response? *)
+| DsNegative3 (rcode : N) (rs : list nsec3) (ttl : Z)    (* the same with NSEC3 RRsets (one parameter tuple) *)
+             (marked aggressive res_cd : bool).
 
 (* cache.ResponseWriter.WriteMsg: shared state is fed only with local provenance that is
    aggressive-eligible, for requests without ECS and without CD *)
@@ -97,7 +153,15 @@ Definition admit_downstream (lim : limits) (maxttl : Z) (st : shared) (now : Z) 
       if admission_guard cd ecs marked aggressive res_cd then
         let e := now + Z.min ttl maxttl in
         let st1 := record_index lim st now zone q (canon_recs rs) e in
-        if (rcode =? 3)%N then record_cut lim st1 now zone q (canon_recs rs) e else st1
+        if (rcode =? 3)%N then record_cut lim st1 now zone q (length rs) false e else st1
+      else st
+  | DsNegative3 rcode rs ttl marked aggressive res_cd =>
+      if admission_guard cd ecs marked aggressive res_cd then
+        let e := now + Z.min ttl maxttl in
+        let st1 := record_index3 lim st now zone q rs e in
+        if (rcode =? 3)%N
+        then record_cut lim st1 now zone q (length rs) (existsb (fun r => negb (N.land (r_flags r) optout_mask_cut =? 0)%N) rs) e
+        else st1
       else st
   end.
 
@@ -119,38 +183,52 @@ Fixpoint cut_walk_sh (now : Z) (cuts : list (rname * Z)) (q : rname) (k : nat) :
   end.
 
 (* denialProofCache.lookupWithMeta for the zone (a candidate only when it is an ancestor-or-self of q):
-   a zone without a live SOA is retired outright; otherwise expired NSEC entries are pruned and the live
-   ones, in canonical order, go to the RFC 8198 evaluator.  Returns the index left and the RCODE of a
-   synthesized denial *)
-Definition index_lookup (st : shared) (now : Z) (zone q : rname) (qtype : N) : shared * option N :=
+   a zone without a live SOA is retired outright; otherwise the live NSEC entries, in canonical order, go to
+   the RFC 8198 evaluator; when they do not answer, the live NSEC3 ring (owner-hash order) goes to
+   EvaluateAggressiveNSEC3 and its answer counts only while the ring is not quarantined.  A family in
+   which the lookup saw an expired entry makes it prune every expired entry of the zone.  Returns the
+   index left and the RCODE of a synthesized denial *)
+Definition index_lookup (tab : htab) (st : shared) (now : Z) (zone q : rname) (qtype : N) : shared * option N :=
   if negb (prefix_b zone q) then (st, None) else
   match sh_soa st with
   | None => (st, None)
   | Some se =>
       if now <? se then
         let live := filter (is_live now) (sh_recs st) in
-        let st' := mk_shared (sh_soa st) live (sh_cuts st) in
+        let live3 := filter (is_live now) (sh_recs3 st) in
+        let pruned := mk_shared (sh_soa st) live live3 (sh_tomb st) (sh_cuts st) in
+        let exp1 := negb (length live =? length (sh_recs st))%nat in
+        let exp3 := negb (length live3 =? length (sh_recs3 st))%nat in
         let recs := reindex_c (sort_canon (map fst live)) in
         (* nothing expired: the published, pre-validated set (EvaluateAggressiveNSECSet); otherwise the
            per-query path over the live records (EvaluateAggressiveNSECPrepared) *)
-        match (if (length live =? length (sh_recs st))%nat then aggr_nsec_set else aggr_nsec) q qtype 1%N zone recs with
-        | A_deny rc _ => (st', Some rc)
-        | A_err _ => (st', None)
+        match (if exp1 then aggr_nsec else aggr_nsec_set) q qtype 1%N zone recs with
+        | A_deny rc _ => (if exp1 then pruned else st, Some rc)
+        | A_err _ =>
+            let st' := if exp1 || exp3 then pruned else st in
+            match live3 with
+            | [] => (st', None)
+            | _ =>
+              match aggr_nsec3 q qtype 1%N zone (sort3 (map fst live3)) tab with
+              | A_deny rc _ => (st', if tomb_active now (sh_tomb st) then None else Some rc)
+              | A_err _ => (st', None)
+              end
+            end
         end
-      else (mk_shared None [] (sh_cuts st), None)
+      else (mk_shared None [] [] (sh_tomb st) (sh_cuts st), None)
   end.
 
 (* one client exchange through Cache.ServeDNS; returns the new state and what the client saw:
    None = the downstream answer, Some rcode = a denial synthesized from shared state *)
-Definition exchange (lim : limits) (maxttl : Z) (st : shared) (now : Z) (zone q : rname) (qtype : N) (cd ecs : bool)
+Definition exchange (lim : limits) (maxttl : Z) (tab : htab) (st : shared) (now : Z) (zone q : rname) (qtype : N) (cd ecs : bool)
            (ds : downstream) : shared * option N :=
   if cd || ecs then (admit_downstream lim maxttl st now zone q cd ecs ds, None) else
   let '(cuts, hit) := cut_walk_sh now (sh_cuts st) q (length q) in
-  let st := mk_shared (sh_soa st) (sh_recs st) cuts in
+  let st := mk_shared (sh_soa st) (sh_recs st) (sh_recs3 st) (sh_tomb st) cuts in
   match hit with
   | Some _ => (st, Some 3%N)
   | None =>
-      match index_lookup st now zone q qtype with
+      match index_lookup tab st now zone q qtype with
       | (st, Some rc) => (st, Some rc)
       | (st, None) => (admit_downstream lim maxttl st now zone q cd ecs ds, None)
       end
@@ -158,12 +236,16 @@ Definition exchange (lim : limits) (maxttl : Z) (st : shared) (now : Z) (zone q 
 
 (* what the driver reads back from the real Store after each exchange: SOA expiry, number of NSEC
    entries of the zone and the sum of their expiries, number of cuts of the zone, number of live cuts *)
-Record shobs := mk_shobs { so_soa : option Z; so_nrec : N; so_sum : Z; so_ncut : N; so_nlive : N }.
+Record shobs := mk_shobs { so_soa : option Z; so_nrec : N; so_sum : Z; so_ncut : N; so_nlive : N; so_tomb : bool }.
 Definition observe_shared (now : Z) (st : shared) : shobs :=
-  mk_shobs (sh_soa st) (N.of_nat (length (sh_recs st))) (fold_left (fun a x => a + snd x) (sh_recs st) 0)
-           (N.of_nat (length (sh_cuts st))) (N.of_nat (length (filter (is_live now) (sh_cuts st)))).
+  mk_shobs (sh_soa st) (N.of_nat (length (sh_recs st) + length (sh_recs3 st)))
+           (fold_left (fun a x => a + snd x) (sh_recs3 st) (fold_left (fun a x => a + snd x) (sh_recs st) 0))
+           (N.of_nat (length (sh_cuts st))) (N.of_nat (length (filter (is_live now) (sh_cuts st))))
+           (match sh_tomb st with Some _ => true | None => false end).
 
 (* histories *)
 Inductive shop :=
-| ShExchange (q : name) (qtype : N) (cd ecs : bool) (ds : downstream) (synth : option N) (obs : shobs)
+| ShExchange (q : name) (qtype : N) (cd ecs : bool) (ds : downstream)
+             (honest : bool)       (* false: the downstream records are not all of the zone's genuine chain (a changed zone) *)
+             (synth : option N) (obs : shobs)
 | ShAdvance (s : Z).
